@@ -396,3 +396,114 @@ func genTinyS(idx int, r *rand.Rand) *History {
 	h.Note = "tinyscope: " + strings.Join(names, " ; ")
 	return h
 }
+
+// ---- tinykeys: bounded-exhaustive histories over a key-identity alphabet (C09, C10) ----
+//
+// One carrier type A (V0), the interface I (I0) it implements, the name "n1" and the group "g1": every
+// way of providing A (unnamed, named, grouped, each also with As(I)), in the root or the child, and every
+// way of asking for it (A, A/n1, I, I/n1, []A@g1, []I@g1, each also optional where that exists) from both
+// scopes. Every sequence of at most 4 calls; repeated letters are the duplicates.
+
+var (
+	tinyKA   = Key{T: 0}
+	tinyKAn  = Key{T: 0, Name: "n1"}
+	tinyKAg  = Key{T: 0, Group: "g1"}
+	tinyKI   = Key{T: tIfaceBase}
+	tinyKIn  = Key{T: tIfaceBase, Name: "n1"}
+	tinyKIg  = Key{T: tIfaceBase, Group: "g1"}
+	tinyKAll = buildTinyKAlphabet()
+)
+
+type tinyKLetter struct {
+	tinyLetter
+	as       []int
+	nameOpt  string
+	groupOpt string
+}
+
+func buildTinyKAlphabet() []tinyKLetter {
+	var out []tinyKLetter
+	type prov struct {
+		name     string
+		r        Res
+		as       []int
+		nameOpt  string
+		groupOpt string
+	}
+	provs := []prov{
+		{"()->A", Res{K: tinyKA}, nil, "", ""},
+		{"()->A/n1", Res{K: tinyKAn}, nil, "", ""},
+		{"()->A@g1", Res{K: tinyKAg}, nil, "", ""},
+		{"()->A as I", Res{K: tinyKA}, []int{tIfaceBase}, "", ""},
+		{"()->A/n1 as I", Res{K: tinyKAn}, []int{tIfaceBase}, "n1", ""},
+		{"()->A@g1 as I", Res{K: tinyKAg}, []int{tIfaceBase}, "", "g1"},
+	}
+	for _, p := range provs {
+		for s := 0; s <= 1; s++ {
+			out = append(out, tinyKLetter{tinyLetter{OpProvide, s, false, nil, []Res{p.r}, fmt.Sprintf("%s@s%d", p.name, s)}, p.as, p.nameOpt, p.groupOpt})
+		}
+	}
+	for _, k := range []Key{tinyKA, tinyKAn, tinyKI, tinyKIn, tinyKAg, tinyKIg} {
+		for s := 0; s <= 1; s++ {
+			out = append(out, tinyKLetter{tinyLetter{OpInvoke, s, false, []Param{{K: k}}, nil, fmt.Sprintf("inv(%v)@s%d", k, s)}, nil, "", ""})
+		}
+	}
+	return out
+}
+
+const tinyKMaxLen = 4
+
+func tinyKTotal(maxLen int) int {
+	t := 0
+	for n := 1; n <= maxLen; n++ {
+		t += ipow(len(tinyKAll), n) * 2
+	}
+	return t
+}
+
+func genTinyK(idx int, r *rand.Rand) *History {
+	n := 1
+	for ; idx >= ipow(len(tinyKAll), n)*2; n++ {
+		idx -= ipow(len(tinyKAll), n) * 2
+	}
+	late := idx%2 == 1
+	idx /= 2
+	letters := make([]int, n)
+	for i := n - 1; i >= 0; i-- {
+		letters[i] = idx % len(tinyKAll)
+		idx /= len(tinyKAll)
+	}
+	h := &History{}
+	h.Opts.Defer = r.Intn(4) == 0
+	h.Opts.Recover = r.Intn(2) == 0
+	h.Opts.RandSeed = r.Int63n(1 << 30)
+	created := !late
+	if created {
+		h.Ops = append(h.Ops, Op{Kind: OpScope, Scope: 0})
+	}
+	var names []string
+	emit := func(l tinyKLetter) {
+		if l.scope == 1 && !created {
+			created = true
+			h.Ops = append(h.Ops, Op{Kind: OpScope, Scope: 0})
+		}
+		f := &Fn{ID: len(h.Fns), Params: append([]Param(nil), l.params...), Results: append([]Res(nil), l.results...)}
+		h.Fns = append(h.Fns, f)
+		h.Ops = append(h.Ops, Op{Kind: l.kind, Scope: l.scope, Fn: f.ID, As: append([]int(nil), l.as...), NameOpt: l.nameOpt, GroupOpt: l.groupOpt})
+	}
+	for _, li := range letters {
+		emit(tinyKAll[li])
+		names = append(names, tinyKAll[li].name)
+	}
+	if !created {
+		h.Ops = append(h.Ops, Op{Kind: OpScope, Scope: 0})
+		created = true
+	}
+	for _, l := range tinyKAll {
+		if l.kind == OpInvoke {
+			emit(l)
+		}
+	}
+	h.Note = fmt.Sprintf("tinykeys late=%v: %s", late, strings.Join(names, " ; "))
+	return h
+}
